@@ -185,6 +185,17 @@ def values_same(eng, st, a, b, depth=0):
         va, vb = strip_opt(a), strip_opt(b)
         inner = values_same(eng, st, va, vb, depth) if va is not None and vb is not None else F
         return simp(z3.Or(z3.And(na, nb), z3.And(z3.Not(na), z3.Not(nb), inner)))
+    def as_items(x):
+        if isinstance(x, tuple) and not (x and isinstance(x[0], str) and x[0] in ("bytes_of", "b64", "typeof")):
+            return list(x)
+        if isinstance(x, Ref) and x.cls == "tuple" and st.get(x).get("__kind__") == "tuple":
+            return list(st.get(x)["items"])
+        return None
+    ia, ib = as_items(a), as_items(b)
+    if ia is not None or ib is not None:
+        if ia is None or ib is None or len(ia) != len(ib):
+            return F          # a tuple equals only a tuple of the same length
+        return z3.And([values_same(eng, st, x, y, depth + 1) for x, y in zip(ia, ib)] or [T])
     za, zb = ops.as_z3(a), ops.as_z3(b)
     if za and zb:
         return za[0] == zb[0] if za[1] == zb[1] else F  # bool / int / float / str are distinct types
@@ -338,9 +349,7 @@ def run(chk):
         chk.function(f"serdes.{c}.decode")
     chk.function("serdes.SerDes.is_primitive")
     # ---- leaf constructors
-    leaves = {"none": lambda e, s, h: None, "bool": lambda e, s, h: fresh("bool", "v"), "int": lambda e, s, h: fresh("int", "v"), "float": lambda e, s, h: fresh("real", "v"), "str": lambda e, s, h: fresh("str", "v"),
-              "bytes": lambda e, s, h: h.typed(s, "bytes", "v"), "uuid": lambda e, s, h: h.typed(s, "UUID", "v"), "decimal": lambda e, s, h: h.typed(s, "Decimal", "v"),
-              "datetime": lambda e, s, h: h.typed(s, "datetime", "v"), "date": lambda e, s, h: h.typed(s, "date", "v")}
+    leaves = LEAVES
     for name, mk in leaves.items():
         eng, hooks = make_engine(chk)
         st = St()
@@ -348,12 +357,41 @@ def run(chk):
         serialize_then_deserialize(chk, eng, st, v, f"codec.{name}.rt")
         for k_ in eng.stats:
             chk.engine_stats[k_] = chk.engine_stats.get(k_, 0) + eng.stats[k_]
+    _rest_of_run(chk, leaves)
+
+
+LEAVES = {"none": lambda e, s, h: None, "bool": lambda e, s, h: fresh("bool", "v"), "int": lambda e, s, h: fresh("int", "v"), "float": lambda e, s, h: fresh("real", "v"), "str": lambda e, s, h: fresh("str", "v"),
+              "bytes": lambda e, s, h: h.typed(s, "bytes", "v"), "uuid": lambda e, s, h: h.typed(s, "UUID", "v"), "decimal": lambda e, s, h: h.typed(s, "Decimal", "v"),
+              "datetime": lambda e, s, h: h.typed(s, "datetime", "v"), "date": lambda e, s, h: h.typed(s, "date", "v")}
+
+
+def _rest_of_run(chk, leaves):
+    # ---- base case of the induction for PRIMITIVE children: at top level a primitive takes the fast path (plain JSON), so the envelope route of a
+    #      primitive (PrimitiveCodec.encode / _to_json_serializable's leaf arm / PrimitiveCodec.decode) is only exercised when it sits INSIDE a container:
+    #      a 1-tuple and a one-entry dict of each leaf, executed through the real code (no induction hypothesis involved)
+    nested_leaves(chk, leaves)
     containers(chk)
     serialized_text_is_ascii(chk, "C15", want=("flags",))   # precondition of assumption S at every json.dumps call
     dispatch_exactness(chk)
     from . import c20
     c20.strict_error_roundtrip(chk, "C15")   # the error objects inside a batch result go through ErrorObject.to_dict / from_dict: exact, '' is not None
     bounded_sanity(chk)
+
+
+def nested_leaves(chk, leaves, prefix="C15"):
+    for name, mk in leaves.items():
+        for shape in ("tuple", "dict"):
+            eng, hooks = make_engine(chk)
+            st = St()
+            v = mk(eng, st, hooks)
+            if shape == "tuple":
+                value = (v,)
+            else:
+                value = st.alloc("dict", {"__kind__": "dict", "open": False, "e": {"k": (T, v)}})
+            serialize_then_deserialize(chk, eng, st, value, f"codec.{shape}_of_{name}.rt", prefix=prefix,
+                                       desc=f"base case of the induction: a {name} inside a {shape} goes through the envelope (tag + value) and comes back equal, with the same type")
+            for k_ in eng.stats:
+                chk.engine_stats[k_] = chk.engine_stats.get(k_, 0) + eng.stats[k_]
 
 
 # ------------------------------------------------------------------------------------------------ containers (induction step)
